@@ -134,8 +134,68 @@ class C14(object):
     assumptions = ['replicas are fresh CPython interpreters differing only in PYTHONHASHSEED; other sources of '
                    'cross-process divergence (locale, platform) are not varied']
 
+    endurance_every = {'quick': 150, 'thorough': 250}
+
+    def is_endurance_run(self, index, tier):
+        e = self.endurance_every.get(tier, 0)
+        return bool(e) and index % e == e // 3
+
+    def execute_endurance(self, spec):
+        """long-lived process state: ONE process applies the binary rules to more than 2^18 different category pairs
+        (all categories of the shipped seen rules and tag inventory, paired in a fixed pseudo-random order).  No
+        application may raise, and sampled results must equal those of a fresh process."""
+        e = spec['endurance']
+        stats = new_stats()
+        srv = _server(0)
+        srv.stdin.write(json.dumps({'endurance': e}) + '\n')
+        srv.stdin.flush()
+        line = srv.stdout.readline()
+        if not line:
+            raise env.HarnessError('replica interpreter died')
+        reply = json.loads(line)
+        if 'died' in reply:
+            raise env.HarnessError(f'endurance child died (status {reply["died"]})')
+        r = reply['endurance']
+        violations = []
+        bump(stats, 'endurance_runs')
+        stats['counters']['most_distinct_pairs_applied_in_one_process'] = r.get('applied', r.get('at', 0))
+        stats['counters']['categories_paired'] = r.get('categories', 0)
+        lang = 'ja' if e['variant'] == 'ja' else 'en'
+        if 'exc' in r:
+            violations.append(Violation(
+                oracle='total', property='C14',
+                message=(f'{lang} binary {r["x"]} , {r["y"]} raised {r["exc"]} as the {r["at"] + 1}-th different pair applied in one '
+                         f'process'), signature={'kind': r['exc'].split(':')[0], 'after': 'many distinct pairs'}))
+        else:
+            items = [{'kind': 'binary', 'lang': lang, 'x': x, 'y': y, 'seen': None, 'tag': 'endurance_sample'}
+                     for x, y, _ in r['samples']]
+            srv.stdin.write(json.dumps({'items': items, 'order': list(range(len(items)))}) + '\n')
+            srv.stdin.flush()
+            fresh = json.loads(srv.stdout.readline())
+            if 'died' in fresh:
+                raise env.HarnessError('replica evaluation child died')
+            for (x, y, res), a in zip(r['samples'], fresh['answers']):
+                bump(stats, 'evaluations')
+                if res:
+                    add_set(stats, 'nontrivial', digest((x, y)))
+                if a.get('res') != res:
+                    violations.append(Violation(
+                        oracle='same_as_alone', property='C14',
+                        message=(f'{lang} ({x}, {y}) applied in a process that had applied up to {r["applied"]} other pairs gives '
+                                 f'{_cats(res)}, in a fresh process {_cats(a.get("res") or []) if "res" in a else a}'),
+                        signature={'kind': 'history', 'after': 'many distinct pairs'}))
+                    break
+        stats['samples'].append({'endurance': e, 'applied': r.get('applied'), 'categories': r.get('categories')})
+        return {'violations': violations[:1], 'stats': stats,
+                'log_digest': digest((e, r.get('applied'), r.get('exc'), [s[2] for s in r.get('samples', [])][:50]))}
+
     # ------------------------------------------------------------ generation
     def generate(self, seed, index, tier, options):
+        if self.is_endurance_run(index, tier):
+            rng = gen.stream(seed, 'C14:endurance', index)
+            return {'prop': 'C14', 'seed': seed, 'index': index, 'endurance': {
+                'variant': rng.choice(['en', 'en', 'en_rebank', 'ja']), 'n': (1 << 18) + rng.choice([50, 3000, 9000]),
+                'start': rng.getrandbits(30), 'sample_every': 997}}
         from depccg.cat import Category
         from depccg.grammar import en, ja
         rng = gen.stream(seed, 'C14:items', index)
@@ -310,6 +370,8 @@ class C14(object):
 
     # ------------------------------------------------------------ execution
     def execute(self, spec, executor_mode=None):
+        if 'endurance' in spec:
+            return self.execute_endurance(spec)
         stats = new_stats()
         items = spec['items']
         answers = []     # per replica: {item index: [answers in evaluation order]}
@@ -518,6 +580,8 @@ class C14(object):
 
     # ------------------------------------------------------------ shrinking
     def shrink_candidates(self, spec):
+        if 'endurance' in spec:
+            return
         n = len(spec['items'])
         # halves, then single removals around the failing item
         for lo, hi in ((0, n // 2), (n // 2, n)):
